@@ -43,14 +43,17 @@ with cf.ThreadPoolExecutor(3) as ex:
         allres.update(res)
         for k, v in res.items():
             print(k, v[0], flush=True)
-if not only:
-    rows = []
-    for s in seeds:
-        meta = json.load(open("/verif/seeded/%s/meta.json" % s))
-        meta["checks"] = {s[:3]: allres[s][0]}
-        json.dump(meta, open("/verif/seeded/%s/meta.json" % s, "w"), indent=1)
-        rows.append("| %s | %s | %s | %s |" % (s, allres[s][0], meta.get("summary", "").replace("\n", " ").replace("|", "/")[:230], meta.get("needs", "").replace("\n", " ").replace("|", "/")[:200]))
-    with open("/verif/seeded/README.md", "w") as f:
-        f.write("# Independently seeded changes\n\nEach directory holds `patch.diff` (a change to tartiflette that breaks the named property while the pinned suite still passes), `demo.py` (exits 0 without the patch, 1 with it) and `meta.json` (what it needs to manifest, how it was confirmed, which check catches it). They were written by sub-agents that saw only the property text and a scratch worktree, and were confirmed with `tools/seed_eval.py`. The verdicts below are from `tools/seed_matrix.py` (quick tier, VERIF_SEED=1, patch applied in a scratch worktree used through `TFV_REPO`).\n\n| seed | own check (quick) | change | needs |\n|---|---|---|---|\n")
-        f.write("\n".join(rows) + "\n")
+# verdicts of this run go into the seeds' meta.json; README.md is regenerated from all meta.json files
+for s_ in seeds:
+    meta = json.load(open("/verif/seeded/%s/meta.json" % s_))
+    meta["checks"] = {s_[:3]: allres[s_][0]}
+    json.dump(meta, open("/verif/seeded/%s/meta.json" % s_, "w"), indent=1)
+rows = []
+for s_ in sorted(d for d in os.listdir("/verif/seeded") if os.path.isdir("/verif/seeded/" + d)):
+    meta = json.load(open("/verif/seeded/%s/meta.json" % s_))
+    verdict = (meta.get("checks") or {}).get(s_[:3], "not run")
+    rows.append("| %s | %s | %s | %s |" % (s_, verdict, meta.get("summary", "").replace("\n", " ").replace("|", "/")[:230], meta.get("needs", "").replace("\n", " ").replace("|", "/")[:200]))
+with open("/verif/seeded/README.md", "w") as f:
+    f.write("# Independently seeded changes\n\nEach directory holds `patch.diff` (a change to tartiflette that breaks the named property while the pinned suite still passes), `demo.py` (exits 0 without the patch, 1 with it) and `meta.json` (what it needs to manifest, how it was confirmed, which check catches it). They were written by sub-agents that saw only the property text and a scratch worktree, and were confirmed with `tools/seed_eval.py`. The verdicts below are the latest ones recorded by `tools/seed_matrix.py` / `tools/seed_eval.py` (quick tier, VERIF_SEED=1, patch applied in a scratch worktree used through `TFV_REPO`).\n\n| seed | own check (quick) | change | needs |\n|---|---|---|---|\n")
+    f.write("\n".join(rows) + "\n")
 print("caught %d / %d" % (sum(1 for v in allres.values() if v[0] == "CAUGHT"), len(allres)))
